@@ -333,13 +333,13 @@ void faulted_run(const Plan& plan, const Spec& s, const Outcome& golden, const s
   // or a missing shared node makes a later constant land at another (valid) offset, so the pool layout - and with it
   // the output - may legitimately differ from the failure-free run. add() reports the failure of the constant's own
   // node, so a failure that add() absorbed is one of those two. Whether such a pool is still right is C19's question.
-  bool only_optional_faults = fired > 0 && !sim::fired_fault_stacks_overflowed();
-  if (o.completed && o.output != golden.output) {
+  // As soon as one failure was absorbed inside ConstPool::add() the layout of that pool - and everything behind it - may
+  // differ, whatever else failed and was absorbed in the same run (a hash table that could not grow, a lost log line).
+  bool only_optional_faults = false;
+  if (o.completed && o.output != golden.output && fired > 0 && !sim::fired_fault_stacks_overflowed()) {
     const auto& stacks = sim::fired_fault_stacks();
-    for (size_t i = stacks.size() - size_t(fired <= stacks.size() ? fired : stacks.size()); i < stacks.size() && only_optional_faults; i++)
-      // absorbed inside ConstPool::add(): gap record or shared sub-constant node; absorbed inside the logger: a lost log line
-      // (log text is produced by Formatter:: / EmitterUtils::log_* into a temporary String before it reaches the Logger)
-      if (!sim::stack_has_function(stacks[i], "ConstPool::add") && !sim::stack_has_function(stacks[i], "Logger::") && !sim::stack_has_function(stacks[i], "Formatter::") && !sim::stack_has_function(stacks[i], "EmitterUtils::log")) only_optional_faults = false;
+    for (size_t i = stacks.size() - size_t(fired <= stacks.size() ? fired : stacks.size()); i < stacks.size() && !only_optional_faults; i++)
+      if (sim::stack_has_function(stacks[i], "ConstPool::add")) only_optional_faults = true;
   }
   if (o.completed && o.output != golden.output && (only_optional_faults || (fired > 0 && sim::fired_fault_stacks_overflowed()))) {
     sim::count("c15.probe.optional_gap_bookkeeping_absorbed");
